@@ -789,6 +789,66 @@ def r07_18(run, model):
     run.floor("uses of trait method signatures by mono and the Go back end", len(seen), 2)
 
 
+def r07_19(run, model):
+    run.rule("R07.19", "the index that finds the generic definition of an inherent method holds generic definitions only: in Ctx::new an entry is "
+                       "inserted under (base type, method) only for a function with type parameters - later entries replace earlier ones, so an "
+                       "exact-instance method `impl Box[int32] { fn tag }` declared after `impl[T] Box[T] { fn tag }` would take the generic's "
+                       "place and calls at other instances would never be specialised")
+    f = model.fn("new", MONO, impl="Ctx")
+    ins = [c for c in S.walk(f.body) if c["k"] == "MethodCall" and c["method"] in ("insert", "entry") and "index" in S.norm_ws(run.facts.text(MONO, c["recv"]["sp"]))]
+    if not ins:
+        raise AnalysisIncomplete("Ctx::new: the insertion into the inherent-method index was not found")
+    par = S.Parents(f.body)
+    for i, c in enumerate(ins, 1):
+        guards = [a for a in par.ancestors(c) if a["k"] == "If" and S.span_contains(a["then"]["sp"], c["sp"])]
+        ok = any(re.search(r"!\w+(\.\w+)*\.generics\.is_empty\(\)|generics\.len\(\)>0|!\w+\.is_empty\(\)", S.norm_ws(run.facts.text(MONO, g["cond"]["sp"]))) and
+                 "generics" in S.norm_ws(run.facts.text(MONO, g["cond"]["sp"])) for g in guards)
+        run.ob("R07.19", f"Ctx::new|index entry #{i} is made for generic functions only", ok, site(MONO, c["sp"]),
+               f"guards: {[S.norm_ws(run.facts.text(MONO, g['cond']['sp']))[:70] for g in guards] or 'none'}",
+               witness="impl[T] Box[T] { fn tag } then impl Box[int32] { fn tag }: b.tag() at Box[string] resolves to the int32 method; "
+                       "`inherent#Box#Box[T]#tag__T_string` is never generated and the Go calls an undefined function")
+
+
+def r07_20(run, model):
+    run.rule("R07.20", "an instance is chosen from the use site's type as the enclosing instance sees it: in mono_expr the `actual` side of every "
+                       "unification with a generic definition's type went through the substitution of the instance being built (subst_ty, the "
+                       "type of an already specialised child) - unifying with the unsubstituted type binds the callee's parameter to the "
+                       "caller's parameter `T`, the instance is refused and the generic name survives")
+    f = model.fn("mono_expr", MONO)
+    u = model.fn("unify", MONO)
+    ps = [p["pat"]["name"] for p in u.params() if not p["self"] and p["pat"]["k"] == "PIdent"]
+    if len(ps) < 2:
+        raise AnalysisIncomplete("mono::unify: (template, actual, ..) parameters not found")
+    n = 0
+    for c in S.walk(f.body):
+        if c["k"] != "Call" or S.callee_name(c) != "unify" or len(c["args"]) < 2:
+            continue
+        n += 1
+        lets = _ScopedLets(f, c)
+        a = c["args"][1]
+        ids = S.idents(a)
+        # a loop variable over a collection: the collection's origin decides
+        src = a
+        par = S.Parents(f.body)
+        for anc in par.ancestors(c):
+            if anc["k"] == "For" and ids & set(S.pat_bindings(anc["pat"])):
+                its = [x for x in S.idents(anc["iter"]) if x in lets]
+                cands = [lets[x] for x in its]
+                ok_any = [x for x in cands if re.search(r"subst_ty\(|\.get_ty\(\)", S.norm_ws(run.facts.text(MONO, x["sp"])))]
+                src = ok_any[0] if ok_any else (cands[-1] if cands else a)
+                break
+        t = S.norm_ws(run.facts.text(MONO, src["sp"]))
+        ok = re.search(r"subst_ty\(|\.get_ty\(\)", t) is not None
+        if not ok and src["k"] in ("Ref", "Unary", "Path"):
+            nm = [x for x in S.idents(src) if x in lets]
+            ok = bool(nm) and all(re.search(r"subst_ty\(|\.get_ty\(\)", S.norm_ws(run.facts.text(MONO, lets[x]["sp"]))) for x in nm)
+        run.ob("R07.20", f"mono_expr|unification #{n} matches against a substituted use type", ok, site(MONO, c["sp"]),
+               f"actual side: `{S.norm_ws(run.facts.text(MONO, a['sp']))[:40]}`",
+               witness="fn apply_id[T](x: T) -> T { let f = id; f(x) } at T = string: `id` is unified with (T) -> T, the binding T := T is refused and "
+                       "the closure captures the undefined Go name `id`")
+    run.floor("unifications in mono_expr", n, 3)
+
+
 def r07_15(run, model):
     run.rule("R07.15", "no generic application survives in what is emitted: besides function signatures and bodies, mono collapses the field "
                        "types of the definitions it keeps (non-generic structs and enums are emitted as they stand) - in `mono`, outside "
@@ -828,6 +888,8 @@ def run(run, model):
     run.try_rule(r07_16, model)
     run.try_rule(r07_17, model)
     run.try_rule(r07_18, model)
+    run.try_rule(r07_19, model)
+    run.try_rule(r07_20, model)
     from rules import c19 as _c19
     run.rule("R07.14", "two instances of a generic enum never share a Go type name for a variant (shared with C19 R19.8: the clash count ranges over the specialised enums that are emitted)")
     run.try_rule(_c19.r19_8, model)
